@@ -39,7 +39,7 @@ static const char *const probe_names[] = {
 	"exit_or_fail_with_timer_pending", "queued_fibre_called_fibre_timeout_model_forked",
 	"c01_history_on_wrap_placed_time_base", NULL };
 
-#define MAXF 6
+#define MAXF 10
 #define AQ_DEPTH 8
 
 /* ---- the real fibres ---------------------------------------------------- */
@@ -56,7 +56,7 @@ static int nf;
 
 static struct {
 	int runq[MAXF + 2], nrun;
-	int atomicq[AQ_DEPTH + 2], natomic;
+	int atomicq[AQ_DEPTH + 34], natomic;
 	bool queued[MAXF];
 	bool has_timer[MAXF];
 	uint32_t due[MAXF];
@@ -138,9 +138,14 @@ static bool m_kill(int x)
 	return res;
 }
 
+/* Beyond 8 undrained requests the statement is silent about the return value (that is the edge
+ * of its scope): the reference follows what the library answered.  A request the library
+ * accepted must then be honoured like any other. */
+static bool real_accepted_overflow;
+
 static bool m_run_atomic(int x)
 {
-	if (M.natomic >= AQ_DEPTH)
+	if (M.natomic >= AQ_DEPTH && !(real_accepted_overflow && M.natomic < AQ_DEPTH + 32))
 		return false;
 	M.atomicq[M.natomic++] = x;
 	return true;
@@ -407,6 +412,7 @@ static int body_actions(int x)
 			if (M.natomic >= AQ_DEPTH && !S.queue_full_enabled)
 				continue;
 			bool r = fibre_run_atomic(&tf[y]->fibre);
+			real_accepted_overflow = r;
 			bool m = apply_op(OP_ATOMIC, y, 0, true, r);
 			sim_probe(P_ATOMIC_FROM_FIBRE);
 			if (!m)
@@ -693,13 +699,15 @@ static void execute(uint32_t base, uint32_t nsteps)
 				continue;
 			/* sometimes a burst, so that the 8-deep queue fills and overflows */
 			uint32_t burst = ch(4) == 3 ? 2 + ch(9) : 1;
+			bool distinct = burst > 1 && ch(2);	/* a burst from distinct sources: x, x+1, ... */
 			for (uint32_t b = 0; b < burst; b++) {
 				if (b)
-					x = ch(nf);
+					x = distinct ? (x + 1) % nf : (int)ch(nf);
 				if (M.natomic >= AQ_DEPTH && !S.queue_full_enabled)
 					break;
 				sim_budget(2000000);
 				bool r = fibre_run_atomic(&tf[x]->fibre);
+				real_accepted_overflow = r;
 				bool m = apply_op(OP_ATOMIC, x, 0, true, r);
 				if (!m)
 					sim_fault(F_QUEUE_FULL);
@@ -766,11 +774,13 @@ static void run(void)
 	S.c02 = !sim_prop_is("C01");	/* C02 and C03 use the timer-heavy, wrap-placed swarm */
 	if (sim_prop_is("C03"))
 		S.c02 = sim_choose(2);
-	nf = 1 + sim_choose(MAXF);
+	nf = sim_choose(4) ? 1 + sim_choose(6) : 1 + sim_choose(MAXF);
 	uint32_t nsteps = 5 + sim_choose(56);
 	if (sim_chance(1, 16))
 		nsteps = 150 + sim_choose(250);	/* long-lived schedulers: counters and queue cursors wrap */
 	S.queue_full_enabled = sim_chance(1, 4);
+	if (S.queue_full_enabled && sim_choose(2))
+		nf = 9 + sim_choose(MAXF - 8);	/* enough fibres for 8 distinct undrained requests and a ninth */
 	if (S.c02) {
 		uint32_t b = sim_choose(12);
 		S.base = b < 8 ? bases[b] - sim_choose(b ? 4 : 1) : sim_bits32();
